@@ -58,6 +58,12 @@ PROP = {
         "Momo.MMap.C08_list_refines",
         "Momo.MMap.htLawful",
         "Momo.MMap.listLawful",
+        "Momo.MML.C08_multimap_ledger_refines_spec_partial",
+        "Momo.MML.C08_multimap_ledger_add_appends",
+        "Momo.MML.C08_multimap_ledger_step_refines_spec_partial",
+        "Momo.MML.C08_multimap_ledger_history_refines_spec_partial",
+        "Momo.MML.C08_multimap_ledger_history_refines_spec_partial2",
+        "Momo.MML.C08_multimap_ledger_good_preserved",
     ],
     "harnesses": [
         {"name": "c08_limp4", "src": "c08_mmap.cpp", "sanitize": "asan", "flags": ["-DVF_PART=0", "-O0"]},
